@@ -130,6 +130,22 @@ Theorem C19_linkage_sum : forall (net : list rxn) (iso : list str) (rc : rcert) 
 Proof. exact SK.proof.C19_Rank.linkage_sum. Qed.
 Print Assumptions C19_linkage_sum.
 
+(** (6b) each linkage-class deficiency is n_c - 1 - (EXACT rank of the class's non-zero difference vectors y' - y). *)
+Theorem C19_class_deficiency : forall (net : list rxn) (iso : list str) (rc : rcert) (ccs : list rcert) (c : nat),
+  certs_ok net iso rc ccs = true ->
+  let cs := fst (complex_graph net iso) in
+  let arcs := snd (complex_graph net iso) in
+  let L := linkage_classes arcs (length cs) in
+  let m := length (species_order net iso) in
+  let D := class_diffs cs arcs (nth c L []) in
+  let F := mathcomp.algebra.rat.rat_fieldType in
+  c < length L ->
+  nth c (linkage_deficiencies L (map rc_r ccs)) 0%Z
+  = (Z.of_nat (length (nth c L [])) - 1
+     - Z.of_nat (@mathcomp.algebra.mxalgebra.mxrank F (length D) m (SK.lib.RankBridge.toM (length D) m D)))%Z.
+Proof. exact SK.proof.C19_Rank.class_deficiency_exact. Qed.
+Print Assumptions C19_class_deficiency.
+
 (** (7) documentation of the repaired defect (/repo 0eb35ff): the walk over G.edges(r) only (out-arcs of the reaction node
         = product arcs) gives A + B -> C, C -> A + B three complexes, one of them the zero vector that is no side of any
         reaction; the repaired walk gives the two complexes. *)
